@@ -37,6 +37,9 @@ class C08(Driver):
                    "happens-before graph on the executed schedule, which contains only Janet's own synchronisation",
                    "ev/deadline with the interrupt flag and os/sigaction are out of scope"]
     required_probes = ["context_switches", "message_received", "reader_gave_up_on_deadline", "select_across_threads"]
+    # runs that contain a stale pending entry go through a dangling VM pointer (recorded finding): what happens then
+    # depends on freed memory and reused descriptors, so such a run need not recur exactly
+    unstable_prefixes = ("C08/stale-thread-chan-entry/",)
     timeout_ms = 30000
 
     # ---------------- generation ----------------
